@@ -1,7 +1,7 @@
 (* Proofs/OptSmall.v — C13 on its exhaustive small domain, by complete evaluation of the
    float model inside the kernel's VM (finite domain, bounds in the statements). *)
 From Coq Require Import ZArith List Bool Floats.
-From V Require Import F64 Gradual GenState OptCheck.
+From V Require Import OptCheckMania F64 Gradual GenState OptCheck.
 Import ListNotations.
 Open Scope Z_scope.
 
@@ -30,4 +30,8 @@ Proof. apply forallb_forall. exact catch_opt_all_true. Qed.
 (* non-vacuity: the domains are what the property describes *)
 Example domain_sizes :
   (length taiko_domain, length catch_domain) = (2070%nat, 24794%nat).
+Proof. vm_compute. reflexivity. Qed.
+
+(* mania: the whole small domain (<= 6 objects, <= 2 hold notes) by evaluation *)
+Lemma mania_lvl1_true : mania_lvl1 = true.
 Proof. vm_compute. reflexivity. Qed.
